@@ -1460,7 +1460,17 @@ func (u *Unit) execLoop(fr *Frame, li *loopInfo, ins []edgeState, deliver func(f
 		}
 	}
 	u.havocHeap(st, nil, "loop")
+	// every local the frame knows, also one that still holds its zero value (it has no entry in st.cells yet)
+	known := map[*Cell]bool{}
 	for c := range st.cells {
+		known[c] = true
+	}
+	for _, v := range fr.vals {
+		if p, ok := v.(*PtrV); ok && p.Cell != nil && !strings.HasPrefix(p.Cell.Name, "G:") && !strings.HasPrefix(p.Cell.Name, "table:") {
+			known[p.Cell] = true
+		}
+	}
+	for c := range known {
 		if u.cellWrittenIn(li, c, fr) {
 			m := map[string]Val{}
 			u.leaves(c.Typ, nil, func(path []string, lt types.Type) {
